@@ -1,11 +1,57 @@
 (* Run05.v — case runner for C05: complete strings judged by the independent
    CFG recogniser of CfgSpec.v *)
 From Coq Require Import String.
-From LLG Require Import Base Sx Regex Lexer Earley CfgSpec RunEngine.
+From LLG Require Import Base Sx Regex Lexer Earley CfgSpec RunEngine Param.
 Open Scope string_scope.
 Open Scope N_scope.
 
+(* ---- parametric rules: 64-bit values travel as 8 big-endian bytes ---- *)
+Definition n_of_bytes (b : bytes) : N := fold_left (fun acc x => acc * 256 + x) b 0.
+Fixpoint bytes_of_n (k : nat) (n : N) (acc : bytes) : bytes :=
+  match k with O => acc | S k' => bytes_of_n k' (n / 256) ((n mod 256) :: acc) end.
+Definition sx_u64 (n : N) : sx := SX (bytes_of_n 8 n []).
+
+Definition pref_of (a : list sx) (i : nat) : pref := mk_pref (as_n (nth_sx a i)) (as_n (nth_sx a (S i))).
+Definition op_of (x : sx) : cmp_op :=
+  let is s := bytes_eqb (match x with SY n => n | _ => [] end) (sym s) in
+  if is "ne" then OpNE else if is "eq" then OpEQ else if is "le" then OpLE
+  else if is "lt" then OpLT else if is "ge" then OpGE else OpGT.
+
+Definition pexpr_of_sx (x : sx) : pexpr :=
+  let h := head_sym x in
+  let a := tail_items x in
+  let is s := bytes_eqb h (sym s) in
+  if is "null" then ENull
+  else if is "const" then EConst (n_of_bytes (as_bytes (nth_sx a 0)))
+  else if is "incr" then EIncr (pref_of a 0)
+  else if is "decr" then EDecr (pref_of a 0)
+  else if is "or" then EBitOr (n_of_bytes (as_bytes (nth_sx a 0)))
+  else if is "and" then EBitAnd (n_of_bytes (as_bytes (nth_sx a 0)))
+  else ESelf.
+
+Fixpoint pcond_of_sx (fuel : nat) (x : sx) : pcond :=
+  match fuel with
+  | O => CTrue
+  | S k =>
+      let h := head_sym x in
+      let a := tail_items x in
+      let is s := bytes_eqb h (sym s) in
+      if is "cmp" then CCmp (op_of (nth_sx a 0)) (pref_of a 1) (n_of_bytes (as_bytes (nth_sx a 3)))
+      else if is "bitcount" then CBitCount (op_of (nth_sx a 0)) (pref_of a 1) (as_n (nth_sx a 3))
+      else if is "and" then CAnd (pcond_of_sx k (nth_sx a 0)) (pcond_of_sx k (nth_sx a 1))
+      else if is "or" then COr (pcond_of_sx k (nth_sx a 0)) (pcond_of_sx k (nth_sx a 1))
+      else if is "not" then CNot (pcond_of_sx k (nth_sx a 0))
+      else CTrue
+  end.
+
 Definition run_case05 (x : sx) : sx :=
+  if bytes_eqb (head_sym x) (sym "pexpr") then
+    let a := tail_items x in
+    tagged "ok" [sx_u64 (pexpr_eval (pexpr_of_sx (nth_sx a 0)) (n_of_bytes (as_bytes (nth_sx a 1))))]
+  else if bytes_eqb (head_sym x) (sym "pcond") then
+    let a := tail_items x in
+    tagged "ok" [sb (pcond_eval (pcond_of_sx 12 (nth_sx a 0)) (n_of_bytes (as_bytes (nth_sx a 1))))]
+  else
   let a := tail_items x in
   let '(g, sp) := grammar_of_sx (tail_items (nth_sx a 0)) in
   tagged "ok" (map (fun s => sb (cfg_accepts g sp (as_bytes s))) (as_list (nth_sx a 1))).
